@@ -101,6 +101,7 @@ def run_c11(cfg: HCfg, c: Ctx) -> Any:
     OPS = ["call", "setup", "exec"] + ["exec:" + l for l in labels] + ["setup:" + l for l in labels] + ["setup:[]"] + (["deepcopy"] if cfg.deepcopy else [])
     OPS += ["execsetup:" + l for l in labels]  # executor(target_nodes=[l]).setup(): the setup nodes that selection needs
     OPS += ["hold", "runheld"]  # an executor of the whole DAG is created now and run by a later operation
+    OPS += ["config"]  # config_from_dict naming every node (a new priority): what setup nodes produced so far is kept
     if graph_roots:
         OPS.append("setupRT:%s:%s" % (graph_roots[0], labels[-1]))  # setup(root_nodes=[r], target_nodes=[t])
     returns_none = bool(is_setup[labels[0]] and c.choose(2, "returns_none"))  # the first setup node returns None
@@ -182,6 +183,11 @@ def run_c11(cfg: HCfg, c: Ctx) -> Any:
             continue
         if name == "hold":
             held[cur] = dd.executor()
+            continue
+        if name == "config":
+            dd.config_from_dict({"nodes": {l: {"priority": step + 1} for l in labels}, "max_concurrency": 2})
+            if before_done:
+                c.cover("w_config_after_setup")
             continue
         if name == "runheld":
             if held.get(cur) is None:
